@@ -121,6 +121,9 @@ type Prop struct {
 	// Avoid, when set, post-processes a generated program so that it never
 	// produces the shapes of the listed known findings (avoidance mode).
 	Avoid func(p *Program, known []string)
+	// Expand, when set, turns a generated base program into the list of programs
+	// that are actually executed (e.g. one per crash point found by a counting run).
+	Expand func(t *testing.T, base *Program, r *simrt.Rand, tier string) []*Program
 }
 
 // Replay is the on-disk form of one exactly repeatable execution.
@@ -142,6 +145,7 @@ type Replay struct {
 type RunLine struct {
 	Prop     string   `json:"prop"`
 	Index    int      `json:"index"`
+	Sub      int      `json:"sub"`
 	Seed     uint64   `json:"seed"`
 	Outcome  *Outcome `json:"outcome"`
 	Replay   string   `json:"replay,omitempty"`
@@ -267,36 +271,48 @@ func WorkerMain(t *testing.T, props map[string]*Prop) {
 			pr.Avoid(prog, known)
 			avoid = true
 		}
-		t0 := time.Now()
-		oc := pr.Engine(t, prog, simrt.NewDecider(seed^0x5bd1e995), verbose)
-		line := &RunLine{Prop: id, Index: idx, Seed: seed, Outcome: oc, WallMs: ms(t0), Avoid: avoid}
-		if done < 3 || len(oc.Viol) > 0 {
-			line.Brief = prog.Brief()
+		progs := []*Program{prog}
+		if pr.Expand != nil {
+			progs = pr.Expand(t, prog, rng, tier)
+			for _, q := range progs {
+				q.Prop = id
+			}
 		}
-		if len(oc.Viol) > 0 && oc.Trouble == "" {
-			rp := &Replay{Property: id, Seed: seed, Index: idx, Tier: tier, Program: prog, Trace: TrimTrace(oc.Trace), Violation: oc.Viol[0], Hash: oc.Hash, OrigOps: len(prog.Ops), OrigTrace: len(oc.Trace)}
-			isKnown := false
-			for _, k := range known {
-				if k == oc.Viol[0].Sig {
-					isKnown = true
+		for sub, prog := range progs {
+			t0 := time.Now()
+			oc := pr.Engine(t, prog, simrt.NewDecider(seed^0x5bd1e995), verbose)
+			line := &RunLine{Prop: id, Index: idx, Sub: sub, Seed: seed, Outcome: oc, WallMs: ms(t0), Avoid: avoid}
+			if (done < 3 && sub < 2) || len(oc.Viol) > 0 {
+				line.Brief = prog.Brief()
+			}
+			if len(oc.Viol) > 0 && oc.Trouble == "" {
+				rp := &Replay{Property: id, Seed: seed, Index: idx, Tier: tier, Program: prog, Trace: TrimTrace(oc.Trace), Violation: oc.Viol[0], Hash: oc.Hash, OrigOps: len(prog.Ops), OrigTrace: len(oc.Trace)}
+				isKnown := false
+				for _, k := range known {
+					if k == oc.Viol[0].Sig {
+						isKnown = true
+					}
 				}
-			}
-			if !isKnown || os.Getenv("VERIF_SHRINK_KNOWN") != "" {
-				Shrink(t, pr.Engine, rp, 60*time.Second)
-			}
-			if replayDir != "" {
-				os.MkdirAll(replayDir, 0o755)
-				name := filepath.Join(replayDir, fmt.Sprintf("%s-%s-%d.json", id, tier, idx))
-				b, _ := json.MarshalIndent(rp, "", " ")
-				if err := os.WriteFile(name, b, 0o644); err == nil {
-					line.Replay = name
+				if !isKnown || os.Getenv("VERIF_SHRINK_KNOWN") != "" {
+					Shrink(t, pr.Engine, rp, 60*time.Second)
 				}
+				if replayDir != "" {
+					os.MkdirAll(replayDir, 0o755)
+					name := filepath.Join(replayDir, fmt.Sprintf("%s-%s-%d.%d.json", id, tier, idx, sub))
+					b, _ := json.MarshalIndent(rp, "", " ")
+					if err := os.WriteFile(name, b, 0o644); err == nil {
+						line.Replay = name
+					}
+				}
+				line.Outcome.Viol = []Violation{rp.Violation}
+				line.Brief = rp.Program.Brief()
 			}
-			line.Outcome.Viol = []Violation{rp.Violation}
-			line.Brief = rp.Program.Brief()
+			oc.Trace = nil
+			emit(line)
+			if time.Since(start) > budget+budget/2 {
+				break
+			}
 		}
-		oc.Trace = nil
-		emit(line)
 		done++
 	}
 }
